@@ -25,6 +25,8 @@ struct Scn {
     int n_pre = 0, n_after = 0;      // tagged pairs before / in the payload
     std::vector<size_t> qcuts, scuts; // cut positions in (pre_req+head+pay) and (pre_res+res_head+res_pay)
     int early_req_calls = 0;         // request calls attempted before any response byte (must consume 0)
+    bool framed101 = false;
+    bool interim = false;            // a 100 Continue precedes the answer to CONNECT
     int lead = 0;                    // blanks in front of the first tunnelled HTTP request (the probe skips leading whitespace, as IIS does)
     bool expect_tunnel = false;
 };
@@ -165,27 +167,29 @@ static Scn gen_scn() {
     Scn s; s.pers = rcx::range(0, 9); s.auto_destroy = rcx::coin(); s.kind = rcx::chance(1, 5) ? 1 : 0;
     s.n_pre = rcx::chance(1, 3) ? rcx::range(1, 2) : 0;
     for (int i = 0; i < s.n_pre; i++) { s.pre_req += pair_req("b" + std::to_string(i)); s.pre_res += pair_res("b" + std::to_string(i), rcx::range(0, 5)); }
-    static const int ST0[] = {200, 200, 200, 201, 204, 299, 407, 403, 404, 500};
+    static const int ST0[] = {200, 200, 200, 201, 204, 299, 407, 403, 404, 500, 300, 302};
     if (s.kind == 0) {
         s.head = "CONNECT " + std::string(rcx::coin() ? "tunnel.example:443" : "10.1.2.3:8443") + " HTTP/1.1\r\nHost: tunnel.example:443\r\n" + (rcx::coin() ? "Proxy-Authorization: Basic QTpC\r\n" : "") + "\r\n";
-        s.status = ST0[rcx::range(0, 9)]; bool ok2xx = s.status >= 200 && s.status <= 299;
+        s.status = ST0[rcx::range(0, 11)]; bool ok2xx = s.status >= 200 && s.status <= 299;
         s.res_body = !ok2xx && rcx::coin();
         s.res_head = "HTTP/1.1 " + std::to_string(s.status) + " X\r\nX-Pair: cxz\r\n" + (s.res_body ? "Content-Length: 7\r\n\r\nrefused" : (ok2xx ? "\r\n" : "Content-Length: 0\r\n\r\n"));
-        s.payload = ok2xx ? (rcx::chance(1, 12) ? 4 : rcx::range(0, 3)) : (rcx::chance(3, 4) ? 0 : 3);
+        if (rcx::chance(1, 8)) { s.res_head = "HTTP/1.1 100 Continue\r\n\r\n" + s.res_head; s.interim = true; } // an interim response first; the final status decides
+        s.payload = ok2xx ? (rcx::chance(1, 12) ? 4 : rcx::chance(1, 10) ? 5 : rcx::range(0, 3)) : (rcx::chance(3, 4) ? 0 : 3);
     } else {
         s.head = "GET /up HTTP/1.1\r\nHost: h.example\r\nConnection: Upgrade\r\nUpgrade: websocket\r\n\r\n";
-        s.status = rcx::chance(3, 4) ? 101 : 200; s.res_body = false;
-        s.res_head = "HTTP/1.1 " + std::to_string(s.status) + " X\r\nX-Pair: cxz\r\n" + (s.status == 101 ? "Upgrade: websocket\r\nConnection: Upgrade\r\n\r\n" : "Content-Length: 0\r\n\r\n");
-        s.payload = s.status == 101 ? rcx::range(1, 3) : (rcx::coin() ? 0 : 3);
+        s.status = rcx::chance(3, 4) ? 101 : 200; s.res_body = false; s.framed101 = s.status == 101 && rcx::chance(1, 5); // a 101 that carries Content-Length / Transfer-Encoding is an ordinary response: no tunnel
+        s.res_head = "HTTP/1.1 " + std::to_string(s.status) + " X\r\nX-Pair: cxz\r\n" + (s.status == 101 ? std::string("Upgrade: websocket\r\nConnection: Upgrade\r\n") + (s.framed101 ? "Content-Length: 0\r\n" : "") + "\r\n" : "Content-Length: 0\r\n\r\n");
+        s.payload = (s.status == 101 && !s.framed101) ? rcx::range(1, 3) : (rcx::coin() ? 0 : 3);
     }
     if (s.payload == 0) { s.n_after = rcx::range(1, 3); if (s.kind == 0 && s.status >= 200 && s.status <= 299 && rcx::chance(1, 4)) { s.lead = rcx::range(1, 3); for (int i = 0; i < s.lead; i++) s.pay += rcx::coin() ? ' ' : '\t'; } for (int i = 0; i < s.n_after; i++) { s.pay += pair_req("a" + std::to_string(i)); s.res_pay += pair_res("a" + std::to_string(i), rcx::range(0, 4)); } }
     else if (s.payload == 1) { s.pay = std::string("\x16\x03\x01\x00\xa5\x01\x00\x00\xa1\x03\x03", 11); int n = rcx::range(10, 120); for (int i = 0; i < n; i++) s.pay += (char)rcx::range(0, 255); s.pay += '\n'; s.res_pay = std::string("\x16\x03\x03\x00\x31\x02\x00\x00", 8); int m = rcx::range(0, 60); for (int i = 0; i < m; i++) s.res_pay += (char)rcx::range(0, 255); }
-    else if (s.payload == 2) { int n = rcx::range(1, 40); for (int i = 0; i < n; i++) { char ch = (char)rcx::range(0x80, 0xff); s.pay += ch; } s.pay += rcx::coin() ? '\n' : '\0'; int m = rcx::range(0, 100); for (int i = 0; i < m; i++) s.pay += (char)rcx::range(0, 255); s.res_pay = "SSH-2.0-x\r\n"; }
+    else if (s.payload == 5) { s.pay = std::string(rcx::coin() ? "FOO" : "GETX") + " /x HTTP/1.1\r\nHost: h.example\r\n\r\n"; s.res_pay = "SSH-2.0-x\r\n"; } // looks like HTTP but the first word is no method the library knows: tunnel
+    else if (s.payload == 2) { int n = rcx::range(0, 40); for (int i = 0; i < n; i++) { char ch = (char)rcx::range(0x80, 0xff); s.pay += ch; } s.pay += rcx::coin() ? '\n' : '\0'; int m = rcx::range(0, 100); for (int i = 0; i < m; i++) s.pay += (char)rcx::range(0, 255); s.res_pay = "SSH-2.0-x\r\n"; }
     else if (s.payload == 4) { // binary payload that carries neither LF nor NUL: shorter than, around, or beyond the hard field limit (18000 by default)
         static const int LN[] = {40, 900, 17990, 18010, 19000, 40000}; int n = LN[rcx::range(0, 5)] + rcx::range(0, 9); uint64_t x = (uint64_t)rcx::range(1, 1 << 30); // one generated value expanded deterministically (40000 separate draws would make shrinking useless)
         for (int i = 0; i < n; i++) { x = vc::mix(x + (uint64_t)i); int ch = 1 + (int)(x % 255); if (ch == '\n') ch = 0xfe; s.pay += (char)ch; } if ((unsigned char)s.pay[0] < 0x80) s.pay[0] = (char)0x80; s.res_pay = "SSH-2.0-x\r\n"; }
     bool ok2xx = s.status >= 200 && s.status <= 299;
-    s.expect_tunnel = (s.kind == 0 && ok2xx && (s.payload == 1 || s.payload == 2 || s.payload == 4)) || (s.kind == 1 && s.status == 101);
+    s.expect_tunnel = (s.kind == 0 && ok2xx && (s.payload == 1 || s.payload == 2 || s.payload == 4 || s.payload == 5)) || (s.kind == 1 && s.status == 101 && !s.framed101);
     if (s.expect_tunnel && s.payload == 3) s.res_pay.clear();
     if (s.kind == 1 && s.status == 101 && s.payload == 3) { s.pay.clear(); s.res_pay.clear(); }
     std::string rq = s.pre_req + s.head + s.pay, rs = s.pre_res + s.res_head + s.res_pay;
@@ -210,7 +214,7 @@ static void campaign() {
         auto r = run_scn(s);
         if (!rcx::shrinking()) {
             g_stats.evaluations++; g_stats.cls(s.kind == 0 ? "connect" : "upgrade"); g_stats.cls("status_" + std::to_string(s.status)); g_stats.cls(s.expect_tunnel ? "expect_tunnel" : "expect_http_resumes");
-            static const char *PN[] = {"payload_http", "payload_tls_like", "payload_random", "payload_none", "payload_without_lf_or_nul"}; g_stats.cls(PN[s.payload]); if (s.lead) g_stats.cls("tunnelled_http_with_leading_blanks");
+            static const char *PN[] = {"payload_http", "payload_tls_like", "payload_random", "payload_none", "payload_without_lf_or_nul", "payload_unknown_method_word"}; g_stats.cls(PN[s.payload]); if (s.lead) g_stats.cls("tunnelled_http_with_leading_blanks"); if (s.interim) g_stats.cls("interim_100_before_connect_answer"); if (s.framed101) g_stats.cls("status_101_with_content_length");
             size_t he = s.pre_req.size() + s.head.size(); bool same_chunk = !s.pay.empty() && std::find(s.qcuts.begin(), s.qcuts.end(), he) == s.qcuts.end(); bool near = false; for (size_t c : s.qcuts) if (c + 4 >= he && c < he) near = true;
             if (same_chunk) g_stats.cls("payload_in_same_chunk_as_connect_head"); if (near) g_stats.cls("cut_within_last_4_bytes_of_head");
             if (same_chunk || near) g_stats.nt(vc::fnv1a(text));
